@@ -97,6 +97,11 @@ NextImpl(prog, R, j) ==
 (* With data pushed inside the subroutine (or no call at all) the address is garbage and the loop runs until   *)
 (* the test ends.                                                                                              *)
 TopIsRet(c) == c.stk # <<>> /\ Top(c).k = "ret"
+(* a third way to find "the" rts (hypothetical, seeded change C19-5): remember the stack pointer at the request and stop behind the *)
+(* first rts that leaves it higher. Wrong when the subroutine has data of its own on the stack at that moment: a nested call made   *)
+(* after the data was pulled returns above that mark as well.                                                                      *)
+StackBytes(c) == Cardinality({k \in 1..Len(c.stk) : c.stk[k].k = "ret"}) * 2 + Cardinality({k \in 1..Len(c.stk) : c.stk[k].k = "data"})
+StepOutBySp(prog, R, j) == LET P(k) == prog[R[k - 1].i].op = "rts" /\ StackBytes(R[k]) < StackBytes(R[j]) IN First(R, j, P)
 StepOutImpl(R, j) ==
   IF TopIsRet(R[j])
   THEN LET t == Top(R[j]).v + 1
